@@ -86,6 +86,7 @@ func c15Length(c *Ctx, m *Module, rule string) {
 func runC15(c *Ctx) {
 	m := c.Root()
 	r := c.R
+	c10Constants(c, m, "C15.length")
 	enc := m.Func("internal/counter", "EncodeStack")
 	maxName := int64(0)
 	fmt.Sscan(m.ConstVal("internal/counter", "maxNameLen"), &maxName)
